@@ -15,6 +15,9 @@ pub struct Control {
     return_when_idle: AtomicBool,
     budget: AtomicI64,
     work_done: AtomicU64,
+    stall_site: AtomicU64,
+    stall_arrival: AtomicI64,
+    stall_yields: AtomicU64,
 }
 
 impl Default for Control {
@@ -24,6 +27,9 @@ impl Default for Control {
             return_when_idle: AtomicBool::new(false),
             budget: AtomicI64::new(-1),
             work_done: AtomicU64::new(0),
+            stall_site: AtomicU64::new(0),
+            stall_arrival: AtomicI64::new(-1),
+            stall_yields: AtomicU64::new(0),
         }
     }
 }
@@ -54,6 +60,27 @@ impl Control {
         self.work_done.load(Ordering::SeqCst)
     }
 
+    /// Make the `arrival`-th thread (0-based) that reaches the yield point named `site` slow: it
+    /// yields to the controlled scheduler `yields` times in a row there.  A cooperative fault
+    /// point ("a slow writer"); it changes no decision and is a no-op unless built for shuttle.
+    pub fn set_stall(&self, site: &str, arrival: i64, yields: u64) {
+        self.stall_site.store(site_hash(site), Ordering::SeqCst);
+        self.stall_yields.store(yields, Ordering::SeqCst);
+        self.stall_arrival.store(arrival, Ordering::SeqCst);
+    }
+
+    pub(crate) fn stall_point(&self, site: &'static str) {
+        if self.stall_site.load(Ordering::SeqCst) != site_hash(site) {
+            return;
+        }
+        if self.stall_arrival.fetch_sub(1, Ordering::SeqCst) != 0 {
+            return;
+        }
+        for _ in 0..self.stall_yields.load(Ordering::SeqCst) {
+            yield_point(site);
+        }
+    }
+
     pub(crate) fn note_work_done(&self) {
         self.work_done.fetch_add(1, Ordering::SeqCst);
     }
@@ -78,6 +105,12 @@ impl Control {
     pub(crate) fn should_return_instead_of_wait(&self) -> bool {
         self.stop.load(Ordering::SeqCst) || self.return_when_idle.load(Ordering::SeqCst)
     }
+}
+
+fn site_hash(site: &str) -> u64 {
+    // FNV-1a; zero means "no stall configured"
+    site.bytes()
+        .fold(0xcbf29ce484222325u64, |h, b| (h ^ b as u64).wrapping_mul(0x100000001b3))
 }
 
 /// A point at which the controlled scheduler may switch threads although the code performs no
